@@ -33,6 +33,8 @@ TABLE = [
  ('C13-exponential-wraps-to-zero', 'fixed', '6666666', 'exponential(2) with 66 attempts and a 4 s cap: attempt 65 sleeps 0 ms because 2^64 wraps to 0 (u64::pow), instead of saturating at the cap'),
  ('C07-try-from-slicing-panic', 'fixed', '7777777', 'TopicName::try_from (and every builder open()) panics on a string whose byte 1 is inside a multi-byte character (value[1..] slicing)'),
  ('C17-registration-under-global-lock', 'fixed', '8888888', 'with a stalled subscriber on topic A and more than 101 registrations queued on it, handle_stream parks in tx.send() while holding the global topic lock: no client can open a stream on any other topic'),
+ ('C11-accepted-then-abandoned', 'fixed', '9999999', 'a registration in a role that does not match the topic\'s existing kind (e.g. RegisterReplier on a pub/sub topic) is answered Ok and then abandoned: the stream task panics in Socket::unwrap_pubsub/unwrap_reqrep'),
+ ('C11-panic-in-selium-panic-server-src-topic-mod', 'fixed', '9999999', 'handle_stream panics (topic/mod.rs unwrap_pubsub / unwrap_reqrep) after having answered Ok to a registration of the other messaging pattern'),
  ('C06-decoder-panic-decode-message-batch', 'fixed', '0000000', 'decode_message_batch panics on malformed input (short header: get_u64; oversize element: split_to; huge count: capacity overflow)'),
  ('C06-decoder-panic-subscriber-chain', 'fixed', '0000000', 'subscriber chain (decompress -> unbatch -> decode) panics inside decode_message_batch on malformed batch bodies'),
  ('C06-oversized-allocation-decode-message-batch', 'fixed', '0000000', 'decode_message_batch allocates count x 32 bytes for an attacker-chosen count (512 MiB for 8 input bytes)'),
@@ -48,7 +50,7 @@ def main():
         for l in log:
             if l.split(' ',1)[1].startswith(prefix): return l.split()[0]
         return None
-    subst = {'0000000': sha('fix: decode_message_batch'), '1111111': sha('fix: BincodeCodec::decode'), '2222222': sha('fix: Publisher::finish flushes'), '3333333': sha('fix: Subscriber yields the messages of a batch'), '4444444': sha('fix: request/reply streams get a fresh retry budget'), '5555555': sha('fix: Requestor reads replies from the new stream'), '6666666': sha('fix: backoff delays saturate'), '7777777': sha('fix: TopicName::try_from no longer panics'), '8888888': sha('fix: a registration no longer holds the global topic lock')}
+    subst = {'0000000': sha('fix: decode_message_batch'), '1111111': sha('fix: BincodeCodec::decode'), '2222222': sha('fix: Publisher::finish flushes'), '3333333': sha('fix: Subscriber yields the messages of a batch'), '4444444': sha('fix: a Replier gets a fresh retry budget'), '5555555': sha('fix: Requestor reads replies from the new stream'), '6666666': sha('fix: backoff delays saturate'), '7777777': sha('fix: TopicName::try_from no longer panics'), '8888888': sha('fix: a registration no longer holds the global topic lock'), '9999999': sha('fix: a registration whose role does not match')}
     out = []
     for f in sorted(glob.glob(os.path.join(HERE,'findings','*.json'))):
         b = os.path.basename(f)[:-5]
